@@ -126,6 +126,12 @@ add("C16",
 
 # ---------------------------------------------------------------- C17
 add("C17",
+    V("descending-scan-stops-one-early", "C17", [(SEARCH, "            if i == -1:\n                return substring, None", "            if i == 0:\n                return substring, None")], "fire", "C17.R",
+      note="seeded change C17-5: a single relative hit lets i run to -2"),
+    V("descending-scan-on-possibly-empty-list", "C17", [(SEARCH, "        if len(already_parsed) == 0:\n            return substring, None\n\n", "")], "fire", "C17.R"),
+    V("twin-descending-scan-stop-below-zero", "C17", [(SEARCH, "            if i == -1:\n                return substring, None", "            if i < 0:\n                return substring, None")], "silent"),
+    V("word-split-drops-formatting", "C17", [(LOCALE, "            return self._split(string, keep_formatting=True, settings=settings)", "            return self._split(string, keep_formatting=False, settings=settings)")], "fire", "C17.R5",
+      note="seeded change C17-6"),
     V("period-time-handler-narrowed", "C17", [(PARSER, "                                meridian_index += 1\n                except Exception:\n                    pass", "                                meridian_index += 1\n                except ValueError:\n                    pass")], "fire", "C17.R",
       note="'13.' as the last token: self.tokens[original_index + 1] raises IndexError"),
     V("translated-word-into-original-chunk", "C17", [(LOCALE, "                elif translated_chunk and word_is_tz(original_tokens[i]):\n                    translated_chunk.append(word)\n                    original_chunk.append(original_tokens[i])",
@@ -185,6 +191,8 @@ add("C19",
 # ---------------------------------------------------------------- C03
 LOADER = "dateparser/languages/loader.py"
 add("C03",
+    V("dictionary-settings-set-only-at-creation", "C03", [(LOCALE, "            if self._dictionary is None:\n                self._generate_dictionary()\n            self._dictionary._settings = settings\n", "            if self._dictionary is None:\n                self._generate_dictionary()\n                self._dictionary._settings = settings\n")], "fire", "C03.R8",
+      note="seeded change C03-6: the first NORMALIZE=False caller's SKIP_TOKENS serve every later caller"),
     V("language-table-aliased-and-popped", "C03", [("dateparser/languages/loader.py", "                        shortname, language_info=deepcopy(self._loaded_languages[lang])\n", "                        shortname, language_info=self._loaded_languages[lang]\n"),
         (LOCALE, "        self.info = combine_dicts(language_info, locale_specific_info)\n", "        if locale_specific_info:\n            self.info = combine_dicts(language_info, locale_specific_info)\n        else:\n            self.info = language_info\n")], "fire", "C03.R7",
       note="seeded change C05-4: the first plain-language Locale pops 'locale_specific' out of the shared table"),
